@@ -49,17 +49,16 @@ def view (f : Gen.ZipFileData) (g : FileData) : Prop :=
   f.file_name = g.fileName ∧ f.extra_field = g.extraField ∧ f.large_file = g.largeFile ∧
   f.using_data_descriptor = g.usingDataDescriptor
 
-/-- The model value of a generated `ZipFileData` (fields the translation drops are defaulted; no
-serialiser reads them). -/
+/-- The model value of a generated `ZipFileData` (`Option<i32>` level as `Option Int`). -/
 def dataOf (f : Gen.ZipFileData) : FileData :=
   { system := Tie.Types.systemOf f.system, versionMadeBy := f.version_made_by,
     encrypted := f.encrypted, usingDataDescriptor := f.using_data_descriptor,
-    method := Tie.Types.methodOf f.compression_method, level := none,
+    method := Tie.Types.methodOf f.compression_method, level := f.compression_level.map Int32.toInt,
     time := Tie.DateTime.toModel f.last_modified_time, crc32 := f.crc32,
     compressedSize := f.compressed_size, uncompressedSize := f.uncompressed_size,
     fileName := f.file_name, fileNameRaw := f.file_name_raw, extraField := f.extra_field,
     fileComment := f.file_comment, headerStart := f.header_start,
-    centralHeaderStart := f.central_header_start, dataStart := 0,
+    centralHeaderStart := f.central_header_start, dataStart := f.data_start,
     externalAttributes := f.external_attributes, largeFile := f.large_file,
     aesMode := f.aes_mode.map fun p => (Tie.Types.aesModeOf p.1,
       match p.2 with | .Ae1 => .ae1 | .Ae2 => .ae2) }
@@ -526,7 +525,7 @@ theorem tie_update_local_file_header (f : Gen.ZipFileData) (g : FileData) (h : v
 /-- A large-file entry with every ZIP64 threshold exceeded, a non-ASCII name and extra data. -/
 def sample : Gen.ZipFileData :=
   { system := .Unix, version_made_by := 46, encrypted := true, using_data_descriptor := false,
-    compression_method := .Deflated,
+    compression_method := .Deflated, compression_level := some 9, data_start := 0x2_0000_0100,
     last_modified_time := { year := 2024, month := 2, day := 29, hour := 23, minute := 59, second := 58 },
     crc32 := 0xDEADBEEF, compressed_size := 0x1_0000_0000, uncompressed_size := 0xFFFF_FFFF,
     file_name := [0xC3, 0xA9], file_name_raw := [0xC3, 0xA9], extra_field := [0xCA, 0xFE, 0, 0],
